@@ -2885,12 +2885,16 @@ def mpf2multiword(dtype, x, p=None, max_length=None):
         bl1 = man1.bit_length()
         d = mask.bit_length() - bl1
         assert d >= 0
-        if d > 0 and offset >= d:
+        while d > 0 and offset >= d:
             # skip heading bytes that are zero for optimal compression
             # of bit data. In some cases, this reduces result length.
+            # The bits shifted in may start with zeros as well, hence
+            # repeat until the leading bit of the word is set:
+            # otherwise the next word would overlap with this one.
             offset -= d
             man1 = (man & (mask << offset)) >> offset
             bl1 = man1.bit_length()
+            d = mask.bit_length() - bl1
         exp1 = exp + offset
         x1 = mpf2float(dtype, mpf((sign, man1, exp1, bl1)))
         if x1 == dtype(0):
